@@ -299,10 +299,10 @@ Inv_Norm ==
   /\ NormDeco(B2, d2) = d2
 
 \* Render is injective on Ast modulo layout: over all decorations of one base, two schemas have the
-\* same AST iff their normal forms have the same tokens (checked once per base, at its first state)
+\* same AST iff their normal forms have the same tokens (checked once per base, at its second state, so that the workers share the bases)
 DecoDescs(b) == {d \in Descs(b) : ValidDesc(d) /\ d.kind = "pre1"} \cup {Desc(b, "base", 1, 0)}
 Inv_Inj ==
-  (st.kind = "base" /\ st.i = 1) =>
+  (st.kind = "base" /\ st.i = 2) =>
      LET B == Bases[st.b].B
          pairs == {LET deco == DecoOf(d) IN <<Ast(B, deco), TokStrings(Lex(NormB(B, deco), NormDeco(B, deco)))>> : d \in DecoDescs(st.b)}
      IN  /\ Cardinality(pairs) = Cardinality({p[1] : p \in pairs})
